@@ -1,4 +1,5 @@
 import SdxModel.Sample
+import SdxModel.Convert
 import SdxModel
 /-!
 # `sdxdrv` — the executable model behind a line protocol
@@ -314,6 +315,19 @@ partial def countNodes (skip : Nat) (E : Env Float) (c : FCtx Float) (n : Node F
 
 structure DState where
   forest : Option (Forest Float) := none
+  convs : List (Conv Float) := []      -- fitted by `rawforest`; requests name them with "="
+
+/-- the convertor section of a request: "=" = the convertors fitted by the last `rawforest` (with the given forest's safe values analysed later) -/
+def getConvs (st : DState) (ts : List String) : List (Conv Float) :=
+  if ts == ["="] then st.convs else (do let n ← nN; rep n pConv : P _).run' { toks := ts.toArray }
+
+def sConvTok : Conv Float → String
+  | .bool => "b"
+  | .real a b p => s!"r {sF a} {sF b} {p}"
+  | .int a b => s!"i {sF a} {sF b}"
+  | .timestamp a b => s!"t {sF a} {sF b}"
+  | .string vm _ => s!"s {vm.length} " ++ " ".intercalate (vm.map fun x =>
+      if x.isEmpty then "-" else String.join (x.toUTF8.toList.map (fun b => String.ofList (Nat.toDigits 16 (b.toNat + 256)).tail)))
 
 def pOptF (s : String) : Option Float := if s == "n" then none else some (pF s)
 
@@ -329,6 +343,31 @@ def parseForest (hdr : List String) (names : List String) (rows : List (List Str
     return { names := names.map pStr, raw := raw.toArray, pids := pids.toArray,
              ap := ⟨salt, supp, ⟨ol, ou⟩, ⟨tl, tu⟩, nsd⟩, bp := ⟨sing, rg, frac, depth⟩, kind }
   Forest.init realEnv (p.run' { toks := hdr.toArray })
+
+/-- `rawforest`: the typed table as given to `Synthesizer`; convertors are fitted and the table normalised in the model -/
+def parseRawForest (hdr : List String) (names : List String) (kinds : List String) (rows : List (List String)) :
+    Except String (List (Conv Float) × Forest Float) := do
+  let p : P (ForestIn Float × List (Conv Float)) := do
+    let nrows ← nN; let ncols ← nN; let _npid ← nN
+    let kind ← pKind
+    let salt := pHex (← nxt); let supp ← pSupp
+    let ol ← nI; let ou ← nI; let tl ← nI; let tu ← nI; let nsd ← nF
+    let sing ← nI; let rg ← nI; let frac ← nN; let depth ← nN
+    let colToks : List (List String) := (List.range ncols).map fun j => rows.map fun r => r.getD j "n"
+    let cols : List (RawCol Float) := (List.zip kinds colToks).map fun (k, c) =>
+      match k with
+      | "b" => .bool (c.map (· == "1"))
+      | "i" => .int (c.map String.toInt!)
+      | "r" => .real (c.map pOptF)
+      | "t" => .ts (c.map fun x => if x == "n" then none else some x.toInt!)
+      | _ => .str (c.map fun x => if x == "n" then none else some (if x == "-" then "" else pStr x))
+    let (convs, raw) := fitTable realEnv cols nrows
+    let pids := rows.map (fun r => (r.drop ncols).map pU)
+    return ({ names := names.map pStr, raw := raw, pids := pids.toArray,
+              ap := ⟨salt, supp, ⟨ol, ou⟩, ⟨tl, tu⟩, nsd⟩, bp := ⟨sing, rg, frac, depth⟩, kind }, convs)
+  let (inp, convs) := p.run' { toks := hdr.toArray }
+  let F ← Forest.init realEnv inp
+  return (convs, F)
 
 def toks (line : String) : List String := (line.trimAscii.toString.splitOn " ").filter (· ≠ "")
 
@@ -347,6 +386,20 @@ partial def loop (h : IO.FS.Stream) (out : IO.FS.Stream) (st : DState) : IO Unit
       | .ok F =>
           out.putStrLn s!"OK {sIvs F.rootSnapped0} | {sIvs F.snapped} | {" ".intercalate (F.nullMaps.map sF)}"
           loop h out { st with forest := some F }
+      | .error e => out.putStrLn ("ERR " ++ e); out.putStrLn "END"; loop h out st
+  | "rawforest" :: hdr =>
+      let nrows := (hdr.headD "0").toNat!
+      let names := (toks (← h.getLine)).drop 1
+      let kinds := (toks (← h.getLine)).drop 1
+      let mut rows : List (List String) := []
+      for _ in [0:nrows] do
+        rows := (toks (← h.getLine)) :: rows
+      match parseRawForest hdr names kinds rows.reverse with
+      | .ok (convs, F) =>
+          out.putStrLn s!"OK {sIvs F.rootSnapped0} | {sIvs F.snapped} | {" ".intercalate (F.nullMaps.map sF)}"
+          out.putStrLn ("convs " ++ " ; ".intercalate (convs.map sConvTok))
+          out.putStrLn "END"
+          loop h out { st with forest := some F, convs := convs }
       | .error e => out.putStrLn ("ERR " ++ e); out.putStrLn "END"; loop h out st
   | "tree" :: comb =>
       match st.forest with
@@ -405,7 +458,7 @@ partial def loop (h : IO.FS.Stream) (out : IO.FS.Stream) (st : DState) : IO Unit
       | some F =>
           let parts := rest.splitOn "|"
           let comb := (parts.getD 0 []).map String.toNat!
-          let convs : List (Conv Float) := (do let n ← nN; rep n pConv : P _).run' { toks := (parts.getD 1 []).toArray }
+          let convs : List (Conv Float) := getConvs st (parts.getD 1 [])
           let hstream := (parts.getD 2 []).map String.toNat!
           let mstream := (parts.getD 3 []).map pDraw
           match materializeTree realEnv F convs comb hstream mstream with
@@ -421,7 +474,7 @@ partial def loop (h : IO.FS.Stream) (out : IO.FS.Stream) (st : DState) : IO Unit
       | none => out.putStrLn "ERR no-forest"; out.putStrLn "END"
       | some F =>
           let parts := rest.splitOn "|"
-          let convs : List (Conv Float) := (do let n ← nN; rep n pConv : P _).run' { toks := (parts.getD 0 []).toArray }
+          let convs : List (Conv Float) := getConvs st (parts.getD 0 [])
           let isInt := (parts.getD 1 []).map (· == "1")
           let ent := (parts.getD 2 []).map pF
           let cparts := (parts.getD 3 []).splitOn ";"
@@ -448,7 +501,7 @@ partial def loop (h : IO.FS.Stream) (out : IO.FS.Stream) (st : DState) : IO Unit
       | none => out.putStrLn "ERR no-forest"; out.putStrLn "END"
       | some F =>
           let parts := rest.splitOn "|"
-          let convs : List (Conv Float) := (do let n ← nN; rep n pConv : P _).run' { toks := (parts.getD 0 []).toArray }
+          let convs : List (Conv Float) := getConvs st (parts.getD 0 [])
           let isInt := (parts.getD 1 []).map (· == "1")
           let prm := parts.getD 2 []
           let mainCol : Option Nat := if prm.getD 0 "-" == "-" then none else some (prm.getD 0 "0").toNat!
